@@ -954,7 +954,7 @@ fn ledger_tokens(a: &[String], b: &[String]) -> Value {
     if ma.len() * mb.len() > 40_000_000 {
         return json!({"parsed_in": true, "parsed_out": true, "n_tokens": n, "too_big": true,
                       "edits": [{"op": "del", "tok": "<too many differences to align>", "cls": "punct", "prev2": "", "after": "", "prev": "",
-                                 "next": "", "head": "", "pos": 0}]});
+                                 "next": "", "head": "", "pos": 0, "solo": false}]});
     }
     let (la, lb) = (ma.len(), mb.len());
     let mut dp = vec![0u32; (la + 1) * (lb + 1)];
@@ -1015,6 +1015,44 @@ fn ledger_tokens(a: &[String], b: &[String]) -> Value {
             "punct"
         }
     };
+    // a `,` that is the only top-level comma of a parenthesised group which is not an argument
+    // list (no callee / macro bang / index before the `(`) and that stands right before the
+    // `)`: the comma of a ONE-ELEMENT TUPLE (expression, pattern or type) -- not optional
+    let solo_comma = |built: &Vec<&str>, follow: &str| -> bool {
+        if follow != ")" {
+            return false;
+        }
+        let mut depth = 0i32;
+        let mut k = built.len();
+        while k > 0 {
+            let t = built[k - 1];
+            match t {
+                ")" | "]" | "}" => depth += 1,
+                "(" | "[" | "{" => {
+                    if depth == 0 {
+                        if t != "(" {
+                            return false;
+                        }
+                        let before = if k >= 2 { built[k - 2] } else { "" };
+                        const HEADS: [&str; 22] = [
+                            "let", "in", "match", "return", "if", "while", "mut", "ref", "move", "else",
+                            "break", "yield", "as", "for", "box", "dyn", "impl", "where", "const",
+                            "static", "unsafe", "loop",
+                        ];
+                        let c = before.chars().next().unwrap_or(' ');
+                        let callee = ((c.is_alphanumeric() || c == '_') && !HEADS.contains(&before))
+                            || matches!(before, "!" | ")" | "]" | ">" | "?");
+                        return !callee;
+                    }
+                    depth -= 1
+                }
+                "," if depth == 0 => return false,
+                _ => {}
+            }
+            k -= 1;
+        }
+        false
+    };
     let (mut i, mut j) = (0usize, 0usize);
     let mut pos = 0usize;
     while i < la || j < lb {
@@ -1033,14 +1071,16 @@ fn ledger_tokens(a: &[String], b: &[String]) -> Value {
         let head = head_of(&built);
         if take_ins {
             let after = if j + 1 < lb { mb[j + 1].clone() } else if suf > 0 { a[n - suf].clone() } else { String::new() };
+            let solo = mb[j] == "," && solo_comma(&built, &after);
             edits.push(json!({"op": "ins", "tok": mb[j], "cls": cls_of(&mb[j]), "prev": prev, "prev2": prev2, "next": next,
-                              "after": after, "head": head, "pos": pos}));
+                              "after": after, "head": head, "pos": pos, "solo": solo}));
             built.push(mb[j].as_str());
             j += 1;
         } else {
             let after = if i + 1 < la { ma[i + 1].clone() } else if suf > 0 { a[n - suf].clone() } else { String::new() };
+            let solo = ma[i] == "," && solo_comma(&built, &after);
             edits.push(json!({"op": "del", "tok": ma[i], "cls": cls_of(&ma[i]), "prev": prev, "prev2": prev2, "next": after,
-                              "after": next_out, "head": head, "pos": pos}));
+                              "after": next_out, "head": head, "pos": pos, "solo": solo}));
             i += 1;
         }
     }
